@@ -114,6 +114,9 @@ func (i *interpreter) symEquals(t types.Type, x, y value) *Term {
 				if sx.kind == "int" && sy.kind == "int" {
 					return tc.Eq(sx.t, sy.t)
 				}
+				if sx.kind == sy.kind && strings.HasPrefix(sx.kind, "ratfloat") && sx.t != nil && sy.t != nil {
+					return tc.Eq(sx.t, sy.t)
+				}
 				if sx.kind == "hex" && sy.kind == "hex" {
 					return i.elemsEqual(sx.bytes, sy.bytes)
 				}
